@@ -398,16 +398,30 @@ def r23(ctx):
         raise AnalysisError("R-2.3: the boolean busy mask derived from `locks` was not found")
     ctx.ok(rid, mnode, f"busy mask `{mask}` derived from the `{locks_p}` argument")
 
+    def polarity(e, depth=0):
+        """+1: selects busy entries, -1: selects idle entries, None: not derived from the mask.
+        Locals such as `free = ~bool_locks` are looked through."""
+        if depth > 4:
+            return None
+        if isinstance(e, ast.UnaryOp) and isinstance(e.op, ast.Invert):
+            p_ = polarity(e.operand, depth + 1)
+            return None if p_ is None else -p_
+        if isinstance(e, ast.Call) and last_name(e) in ("logical_not", "invert") and len(e.args) == 1:
+            p_ = polarity(e.args[0], depth + 1)
+            return None if p_ is None else -p_
+        if isinstance(e, ast.Name):
+            if e.id == mask:
+                return 1 if busy_true else -1
+            defs = [d for d in fl.defs if d.path == e.id and d.kind == "assign" and d.value is not None]
+            if len(defs) == 1 and len([d for d in fl.defs if d.path == e.id]) == 1:
+                return polarity(defs[0].value, depth + 1)
+        return None
+
     def idle_sel(e):
-        """is e the selector of the idle entries (~mask when the mask marks busy)?"""
-        if busy_true:
-            return isinstance(e, ast.UnaryOp) and isinstance(e.op, ast.Invert) and isinstance(e.operand, ast.Name) and e.operand.id == mask
-        return isinstance(e, ast.Name) and e.id == mask
+        return polarity(e) == -1
 
     def busy_sel(e):
-        if busy_true:
-            return isinstance(e, ast.Name) and e.id == mask
-        return isinstance(e, ast.UnaryOp) and isinstance(e.op, ast.Invert) and isinstance(e.operand, ast.Name) and e.operand.id == mask
+        return polarity(e) == 1
 
     # the reduced matrix
     red = None
